@@ -308,9 +308,15 @@ def replay_sweep_record(rec):
         pass
     # graph-level kinds (paid-twice paths, reset / step-limit / step-agreement passes, parameter-vector pass)
     ctx = make_ctx(spec, rec["binding"], need_fo=(pid == "C08"))
-    res = explore(ctx, [ORACLES[pid]()])
+    big = spec.get("_path_only") or len(spec.get("hosts", ())) > 8
+    expand_only = None
+    if big:
+        # scenarios that are only ever explored around the reference plan are replayed the same way
+        from .explore import plan_path_keys
+        expand_only = plan_path_keys(ctx, cap=spec.get("_path_cap") or 12)
+    res = explore(ctx, [ORACLES[pid]()], expand_only=expand_only)
     from .chk_sweep import POST, PARAM_PASS
-    if pid in PARAM_PASS:
+    if pid in PARAM_PASS and not big:
         explore(ctx, [ORACLES[pid]()], action_rep="param")
     for mod_name in POST.get(pid, []):
         import importlib
